@@ -44,7 +44,7 @@ def perGroupV (O : Oracles) (q : AggStmt) (key : List Value) (vals : List Value)
     | some h =>
       match zipCollect (fun (p : Nat × AggKind) v => some (p.1, v)) q.havingAggs (vals.drop q.items.length) with
       | none => none
-      | some gvals => (okOf (eval O { groupKeys := keyBindings q key, groupValues := gvals } h)).map (fun v => (r, v.truthy))
+      | some gvals => ((okOf (eval O { groupKeys := keyBindings q key, groupValues := gvals } h)).bind (fun v => okOf (condHolds v))).map (fun b => (r, b))
 
 /-- `collect (l.map (f >=> g))` in two stages -/
 theorem collect_bind_zip {α β γ : Type} (l : List α) (f : α → Option β) (g : α → β → Option γ) :
@@ -139,7 +139,7 @@ theorem perGroup_eq_slotValues {O : Oracles} {q : AggStmt} (hwf : StmtWF q) (k :
       have hacc : accept O q k g =
           (collect (q.havingAggs.map (fun p => groupValue O q p.2 g))).bind (fun y =>
             (zipCollect (fun (p : Nat × AggKind) v => some (p.1, v)) q.havingAggs y).bind (fun gvals =>
-              (okOf (eval O { groupKeys := keyBindings q k, groupValues := gvals } h)).map (·.truthy))) := by
+              (okOf (eval O { groupKeys := keyBindings q k, groupValues := gvals } h)).bind (fun v => okOf (condHolds v)))) := by
         unfold accept
         simp only [hh]
         have : q.havingAggs.map (fun (x : Nat × AggKind) => (groupValue O q x.2 g).map (fun v => (x.1, v))) =
@@ -167,8 +167,9 @@ theorem perGroup_eq_slotValues {O : Oracles} {q : AggStmt} (hwf : StmtWF q) (k :
           cases zipCollect (fun (p : Nat × AggKind) v => some (p.1, v)) q.havingAggs y with
           | none => rfl
           | some gvals =>
-            simp only [Option.bind_some]
-            cases okOf (eval O { groupKeys := keyBindings q k, groupValues := gvals } h) <;> rfl
+            cases okOf (eval O { groupKeys := keyBindings q k, groupValues := gvals } h) with
+            | none => rfl
+            | some v => cases okOf (condHolds v) <;> rfl
 
 /-! ### keyed tables of any per-group function, and their key-wise combination -/
 
